@@ -47,6 +47,22 @@ def gen(rng, tier):
         yield {"mode": rng.random() < 0.5, "ops": ops, "doc": doc}
 
 
+_gen_main = gen
+
+
+def gen(rng, tier):      # noqa: F811
+    yield from _gen_main(rng, tier)
+    # add / addne / addap side by side on member names that look like the non-standard key tokens, with and without the
+    # sibling those tokens would fall back to
+    docs = [{"foo": 1}, {"foo": 1, "#foo": 2}, {"a": 3, "~a": 2, "b": 4, "#b": [1]}, {"arr": [1, 2], "#0": 5, "0": 6}, {"x": {"k": None, "#k": 0}}, [1, {"a": 1}]]
+    paths = ["/#foo", "/~0foo", "/foo", "/#b", "/#a", "/~0a", "/~0b", "/arr/#0", "/arr/#5", "/#zz", "/#0", "/0", "/x/#k", "/x/~0k", "/x/k", "/1/#a", "/1/~0a"]
+    for doc in docs:
+        for p in paths:
+            for kind in ("add", "addne", "addap"):
+                yield {"mode": True, "ops": [[kind, p, 9]], "doc": doc}
+            yield {"mode": True, "ops": [["addne", p, 9], ["addne", p, 8], ["add", p, 7]], "doc": doc}
+
+
 to_sx = P.to_sx
 
 
@@ -116,16 +132,67 @@ def impl(case):
     else:
         out["results_independent"] = True
     out["forms_same_effect"] = app(p_bld) == app(p_re) == app(p_text) == out["apply"]
+    ra = rel_applicable(case)
+    if ra is not None:
+        try:
+            as_add = ["ok", SX.canon(JSONPatch([P.op_to_dict(["add"] + case["ops"][0][1:])], unicode_escape=case["mode"]).apply(deep(case["doc"])))]
+        except Exception as e:  # noqa: BLE001
+            as_add = ["err", exc_name(e)]
+        want = ["ok", SX.canon(case["doc"])] if ra else as_add
+        out["addne_relation_ok"] = out["apply"] == want
+        if not out["addne_relation_ok"]:
+            out["addne_relation_counterexample"] = {"addne": out["apply"], "expected": want}
     return out
+
+
+def rel_applicable(case):
+    """single addne whose parent part uses plain member names / indices only: 'addne differs from add only in leaving an
+    existing object member untouched' can be read off the implementation alone (RFC 6901 reading of the last token as a
+    literal member name), whatever the last token looks like"""
+    if len(case["ops"]) != 1 or case["ops"][0][0] != "addne":
+        return None
+    path = case["ops"][0][1]
+    if not path.startswith("/") or "\\" in path:
+        return None
+    toks = [t.replace("~1", "/").replace("~0", "~") for t in path.split("/")[1:]]
+    cur = case["doc"]
+    for t in toks[:-1]:
+        if t.startswith(("#", "~")):
+            return None
+        if isinstance(cur, dict) and t in cur:
+            cur = cur[t]
+        elif isinstance(cur, list) and t.isascii() and t.isdigit() and (t == "0" or not t.startswith("0")) and int(t) < len(cur):
+            cur = cur[int(t)]
+        else:
+            return None
+    if not isinstance(cur, dict):
+        return None
+    return toks[-1] in cur
 
 
 def decode(sx, case):
     d = P.decode(sx, case)
+    ra = rel_applicable(case)
+    if ra is not None and not d.get("skip"):
+        d["model"]["addne_relation_ok"] = True
+        if not d["in_domain"] or not d["spec"]:
+            # outside the theorems' hypothesis (the last token looks like a non-standard key token) but inside the
+            # property's statement: used to find failing inputs
+            d["in_domain"] = True
+            d["spec"] = {"addne_relation_ok": True}
+            d["search_domain"] = True
+            m = d["model"]
+            if m["build"][0] == "ok":
+                m.update({"forms_same_dicts": True, "patch_unchanged": True, "caller_list_unchanged": True,
+                          "apply_again": m["apply"], "results_independent": True, "forms_same_effect": True})
+            return d
     m = d["model"]
     if m["build"][0] == "ok":
         m.update({"forms_same_dicts": True, "patch_unchanged": True, "caller_list_unchanged": True,
                   "apply_again": m["apply"], "results_independent": True, "forms_same_effect": True})
     sp = dict(d["spec"])
+    if sp and ra is not None:
+        sp["addne_relation_ok"] = True
     if sp:
         sp.update({"names": [o[0] for o in case["ops"]], "forms_same_dicts": True, "patch_unchanged": True,
                    "caller_list_unchanged": True, "apply_again": sp.get("apply"), "results_independent": True,
@@ -135,6 +202,8 @@ def decode(sx, case):
 
 
 def project(case, res, dec=None):
+    if dec and dec.get("search_domain"):
+        return {"addne_relation_ok": res.get("addne_relation_ok")}
     if res["build"][0] != "ok":
         return {"unexpected-build-error": res["build"]}
     base = P.project(case, {"build": res["build"], "apply": res["apply"]}, dec)
@@ -142,6 +211,8 @@ def project(case, res, dec=None):
     out = {"apply": base["apply"], "apply_again": again["apply"], "names": [o[0] for o in res["build"][1]]}
     for k in ("forms_same_dicts", "patch_unchanged", "caller_list_unchanged", "results_independent", "forms_same_effect"):
         out[k] = res[k]
+    if "addne_relation_ok" in res:
+        out["addne_relation_ok"] = res["addne_relation_ok"]
     return out
 
 
